@@ -524,14 +524,22 @@ class FixedPoints(Op):
     name = "fixed_points"
 
     def params(self, draw):
-        n = draw(st.integers(2, 3))
-        return dict(n=n, allow_elliptic=(n == 2) and draw(st.booleans()))
+        n = draw(st.sampled_from([2, 3, 3]))
+        return dict(n=n, allow_elliptic=(n == 2) and draw(st.booleans()),
+                    axis_rotations=(n == 3) and draw(st.sampled_from([False, "mixed", "all",
+                                                                      "all"])))
 
     def unit(self, draw, params):
         n = params["n"]
         C = draw(objs.s_isometry(n, tmax=0.8))
         if params["allow_elliptic"] and draw(st.booleans()):
             return dict(C=C, type="elliptic", t=draw(fl(0.3, math.pi - 0.3)) *
+                        draw(st.sampled_from([1.0, -1.0])), phi=0.0)
+        if params.get("axis_rotations") and (params["axis_rotations"] == "all" or
+                                             draw(st.integers(0, 2)) > 0):
+            # rotation of H^3 about a geodesic: the eigenvalue 1 is repeated, the fixed point
+            # reported is a timelike vector of the 2-dimensional fixed space
+            return dict(C=C, type="axis-rotation", t=draw(fl(0.3, math.pi - 0.3)) *
                         draw(st.sampled_from([1.0, -1.0])), phi=0.0)
         return dict(C=C, type="loxodromic", t=draw(fl(0.4, 1.5)) *
                     draw(st.sampled_from([1.0, -1.0])),
@@ -545,6 +553,9 @@ class FixedPoints(Op):
         if u["type"] == "elliptic":
             c, s = math.cos(u["t"]), math.sin(u["t"])
             L[1:3, 1:3] = [[c, -s], [s, c]]
+        elif u["type"] == "axis-rotation":
+            c, s = math.cos(u["t"]), math.sin(u["t"])
+            L[2:4, 2:4] = [[c, -s], [s, c]]
         else:
             L = objs.boost(n, 0, u["t"])
             if u["phi"]:
@@ -565,7 +576,15 @@ class FixedPoints(Op):
             pair = iso.fixed_point_pair()
             out.append(("fixed_point_pair", np.array(pair.proj_data), "proj"))
             out.append(("axis", np.array(iso.axis().proj_data), "proj"))
-        if ctx is not None:
+        if ctx is not None and any(u["type"] == "axis-rotation" for u in units):
+            F = np.array(fp.proj_data).reshape((-1, n + 1))
+            for (m, C), f, u in zip(mats, F, units):
+                ctx.small("reported fixed point is fixed (composite with a repeated "
+                          "eigenvalue)", proj_dist(m @ f, f), 1e-6)
+                if u["type"] != "loxodromic":
+                    ctx.check(float(f @ _jform(n + 1) @ f) < 0, "the fixed point reported for "
+                              "a rotation is timelike", f=f)
+        elif ctx is not None:
             want = []
             for (m, C), u in zip(mats, units):
                 if u["type"] == "elliptic":
